@@ -486,4 +486,132 @@ theorem frozenOk_step {b : Block} {p0 : Proposal} {st1 : Status} (ho : p0.status
       · subst e; rfl
     · exact absurd hoq hn
 
+/-- `FrozenOk` as an invariant of the core (for one proposal id). -/
+def FrozenAt (p0 : Proposal) (st1 : Status) (id : Nat) (c : Core) : Prop :=
+  WF c ∧ ∃ p, c.proposals.get? id = some p ∧ FrozenOk p0 st1 p
+
+theorem cs_expired_later {p0 : Proposal} {b1 b : Block} {st1 : Status} (hexp1 : p0.expires.isExpired b1 = true)
+    (hcs1 : p0.currentStatus b1 = .ok st1) (hb : C04.later b1 b) : p0.currentStatus b = .ok st1 := by
+  have he := C04.expired_mono hb hexp1
+  rw [← hcs1]
+  exact cs_congr (t := p0.tally) (by simp [Proposal.tally, he, hexp1])
+
+theorem frozenAt_step {p0 : Proposal} {st1 : Status} {id : Nat} {b1 b : Block} {c c' : Core}
+    (ho : p0.status = .open) (hexp1 : p0.expires.isExpired b1 = true) (hcs1 : p0.currentStatus b1 = .ok st1)
+    (hb : C04.later b1 b) (hf : FrozenAt p0 st1 id c) (h : CoreStep b c c') : FrozenAt p0 st1 id c' := by
+  obtain ⟨hw, p, hp, hfo⟩ := hf
+  refine ⟨coreStep_wf hw h, ?_⟩
+  obtain ⟨p', hp', _, _⟩ := (coreStep_later hw h).props id p hp
+  have hps := coreStep_prop hw h hp'
+  rw [hp] at hps
+  exact ⟨p', hp', frozenOk_step ho (C04.expired_mono hb hexp1) (cs_expired_later hexp1 hcs1 hb) hfo hps⟩
+
+/-- **The observed status only moves forward** (core of C05 `observed_status_monotone`): `p0` is the
+proposal in an earlier core `c0`, observed at block `b1`; `p` the same proposal in a later core `c`,
+observed at a later block `b2`.  Needed: `p0` obeys `OpenOk` at `b1`, the later core is `Later`, and —
+if `p0` was stored Open and had expired at `b1` — the later proposal is `FrozenOk` relative to it. -/
+theorem observed_edge_core {c0 c : Core} {b1 b2 : Block} {id : Nat} {p0 p : Proposal} {st1 st2 : Status}
+    (hw : WF c) (hopen : OpenOk b1 p0) (hlater : Later c0 c)
+    (hp0 : c0.proposals.get? id = some p0) (hp : c.proposals.get? id = some p)
+    (hfrozen : p0.status = .open → p0.expires.isExpired b1 = true → FrozenOk p0 st1 p)
+    (h12 : C04.later b1 b2) (hq1 : p0.currentStatus b1 = .ok st1) (hq2 : p.currentStatus b2 = .ok st2) :
+    edge st1 st2 = true := by
+  obtain ⟨p2, hp2, _, hedge⟩ := hlater.props id p0 hp0
+  rw [hp] at hp2; cases hp2
+  have hnp : st2 ≠ .pending := cs_ne_pending (t := p.tally) hq2 (hw.notPending id p hp)
+  by_cases ho : p0.status = .open
+  · cases he1 : p0.expires.isExpired b1 with
+    | false =>
+      have := hopen ho he1
+      rw [this] at hq1; cases hq1
+      cases st2 <;> simp_all [edge]
+    | true =>
+      obtain ⟨hexpEq, hcase⟩ := hfrozen ho he1
+      rcases hcase with ht | ⟨hn, he⟩
+      · have h2 : p0.currentStatus b2 = .ok st2 := by
+          show Cw3.currentStatus p0.tally b2 = .ok st2
+          rw [← ht]; exact hq2
+        have := cs_expired_later he1 hq1 h12
+        cases Except.ok.inj (this.symm.trans h2)
+        exact edge_refl _
+      · have : Cw3.currentStatus p.tally b2 = .ok p.status := cs_of_ne_open (t := p.tally) hn
+        cases Except.ok.inj (this.symm.trans hq2)
+        exact he
+  · have e1 : Cw3.currentStatus p0.tally b1 = .ok p0.status := cs_of_ne_open (t := p0.tally) ho
+    cases Except.ok.inj (e1.symm.trans hq1)
+    have hn : p.status ≠ .open := by
+      intro e; rw [e] at hedge
+      cases hs : p0.status <;> simp_all [edge]
+    have e2 : Cw3.currentStatus p.tally b2 = .ok p.status := cs_of_ne_open (t := p.tally) hn
+    cases Except.ok.inj (e2.symm.trans hq2)
+    exact hedge
+
+/-- `edge` spelled out. -/
+theorem edge_iff_cases (a b : Status) : edge a b = true ↔
+    a = b ∨ (a = .open ∧ (b = .passed ∨ b = .rejected ∨ b = .executed)) ∨ (a = .passed ∧ b = .executed) := by
+  cases a <;> cases b <;> simp [edge]
+
+/-- what a successful `Proposal` query returned -/
+theorem queryProposal_ok {c : Core} {blk : Block} {id : Nat} {v : ProposalView} (h : queryProposal c blk id = .ok v) :
+    ∃ p, c.proposals.get? id = some p ∧ p.currentStatus blk = .ok v.status := by
+  simp only [queryProposal, load_bind_ok] at h
+  obtain ⟨p, hp, hv⟩ := h
+  simp only [viewOf, Res.bind_ok] at hv
+  obtain ⟨st, hst, hv⟩ := hv
+  simp only [Res.pure_ok] at hv
+  subst hv
+  exact ⟨p, hp, hst⟩
+
+/-! ## 5. the moment a Rejected / Passed is stored -/
+
+/-- Whenever an operation at block `b` stores a proposal as Rejected (it was not stored Rejected
+before), the library decision on its tally at that very block is Rejected. -/
+theorem propStep_stores_rejected {b : Block} {o : Option Proposal} {p' : Proposal} (h : PropStep b o p')
+    (hs : p'.status = .rejected) (hnew : ∀ p, o = some p → p.status ≠ .rejected) :
+    Cw3.currentStatus (openT p') b = .ok .rejected := by
+  cases h with
+  | same _ => exact absurd hs (hnew _ rfl)
+  | created p st ho hst =>
+    have : st = .rejected := hs
+    subst this
+    show Cw3.currentStatus (openT p) b = .ok .rejected
+    rw [← tally_eq_openT ho]; exact hst
+  | voted p v w votes st hvot hne hadd hst =>
+    have : st = .rejected := hs
+    subst this
+    by_cases h0 : p.status = .open
+    · show Cw3.currentStatus (openT { p with votes := votes }) b = .ok .rejected
+      rw [← tally_eq_openT (p := { p with votes := votes }) h0]; exact hst
+    · exact absurd (sticky_status h0 hst).symm (hnew p rfl)
+  | executed p _ => cases hs
+  | closed p st ho hst hne hexp =>
+    have hst' : Cw3.currentStatus p.tally b = .ok st := hst
+    rcases expired_status (t := p.tally) (by simp [Proposal.tally, ho]) (by simpa [Proposal.tally] using hexp) hst' with e | e
+    · exact absurd e hne
+    · subst e
+      show Cw3.currentStatus (openT p) b = .ok .rejected
+      rw [← tally_eq_openT ho]; exact hst
+
+/-- Whenever an operation at block `b` stores a proposal as Passed (it was not stored Passed before),
+the library's `is_passed` holds for its tally at that very block. -/
+theorem propStep_stores_passed {b : Block} {o : Option Proposal} {p' : Proposal} (h : PropStep b o p')
+    (hs : p'.status = .passed) (hnew : ∀ p, o = some p → p.status ≠ .passed) :
+    Cw3.currentStatus (openT p') b = .ok .passed := by
+  cases h with
+  | same _ => exact absurd hs (hnew _ rfl)
+  | created p st ho hst =>
+    have : st = .passed := hs
+    subst this
+    show Cw3.currentStatus (openT p) b = .ok .passed
+    rw [← tally_eq_openT ho]; exact hst
+  | voted p v w votes st hvot hne hadd hst =>
+    have : st = .passed := hs
+    subst this
+    by_cases h0 : p.status = .open
+    · show Cw3.currentStatus (openT { p with votes := votes }) b = .ok .passed
+      rw [← tally_eq_openT (p := { p with votes := votes }) h0]; exact hst
+    · exact absurd (sticky_status h0 hst).symm (hnew p rfl)
+  | executed p _ => cases hs
+  | closed p st ho hst hne hexp => cases hs
+
 end CwPlus.Cw3Core
